@@ -36,6 +36,8 @@ fn kinds() -> Vec<(&'static str, XVal, Option<XFormula>, Option<u32>, Data)> {
         ("formula string", XVal::Str("res".into(), TextEnc::Entities), Some(XFormula::Plain("\"r\"&\"es\"".into())), None, Data::String("res".into())),
         // a formula whose cached string result is empty (=IF(..,"",..)): <v></v> is present, the value is the empty string
         ("formula string, empty result", XVal::Str(String::new(), TextEnc::Entities), Some(XFormula::Plain("IF(1,\"\",1)".into())), None, Data::String(String::new())),
+        ("formula string with XML specials", XVal::Str("R&D <3> \u{e9}".into(), TextEnc::Entities), Some(XFormula::Plain("\"R&D\"".into())), None, Data::String("R&D <3> \u{e9}".into())),
+        ("formula string with numeric references", XVal::Str("a&b\u{20ac}".into(), TextEnc::HexRefs), Some(XFormula::Plain("1".into())), None, Data::String("a&b\u{20ac}".into())),
         ("bool true", XVal::Bool(true), None, None, Data::Bool(true)),
         ("bool false", XVal::Bool(false), None, None, Data::Bool(false)),
         ("iso date", XVal::IsoDate("2021-03-04T05:06:07".into()), None, None, Data::DateTimeIso("2021-03-04T05:06:07".into())),
@@ -60,12 +62,17 @@ pub fn choose_enc(ch: &mut Chooser) -> XEnc {
         dim: ch.pick("enc.dimension", &[DimMode::Exact, DimMode::Absent, DimMode::TooSmall, DimMode::TooLarge, DimMode::StaleRows]),
         target: if ch.flag("enc.target_absolute") { TargetMode::AbsoluteXl } else { TargetMode::Relative },
         upper_parts: ch.flag("enc.part_name_case"),
+        upper_root: ch.flag("enc.top_folder_case"),
+        apply_nf: ch.choose("enc.applyNumberFormat(1,absent,0)", 3) as u8,
         method: if ch.flag("enc.stored") { Method::Stored } else { Method::Deflated },
         explicit_t_n: ch.flag("enc.explicit_t_n"),
         empty_rows: ch.flag("enc.empty_row_elements"),
         reorder_members: ch.flag("enc.member_order"),
         rid_shuffle: ch.flag("enc.relationship_ids_shuffled"),
         indent: ch.flag("enc.xml_indented"),
+        rels_target_first: ch.flag("enc.rels_target_before_type"),
+        rows_never_r: ch.flag("enc.rows_never_carry_r"),
+        split_text_nodes: ch.flag("enc.formula_text_split_by_cdata_and_comment"),
     }
 }
 
@@ -108,6 +115,7 @@ fn enc_tag(e: &XEnc) -> String {
     match e.dim { DimMode::Exact => {}, DimMode::Absent => v.push("dim-absent"), DimMode::TooSmall => v.push("dim-small"), DimMode::TooLarge => v.push("dim-large"), DimMode::StaleRows => v.push("dim-stale") }
     if e.target == TargetMode::AbsoluteXl { v.push("target-abs"); }
     if e.upper_parts { v.push("part-case"); }
+    if e.upper_root { v.push("root-case"); }
     if e.method == Method::Stored { v.push("stored"); }
     if e.explicit_t_n { v.push("t=n"); }
     if e.empty_rows { v.push("empty-rows"); }
